@@ -29,7 +29,8 @@ Layouts ==
   UNION { UNION { UNION {
     LET lb == SubSeq(Keys, 1, s) \o SubSeq(As, 1, nl - s)
         rb == SubSeq(Keys, 1, s) \o SubSeq(Bs, 1, nr - s) IN
-    { <<lb, rb>>, <<Rotate(lb), rb>>, <<lb, Reverse(rb)>>, <<Rotate(lb), Reverse(rb)>> }
+    IF nl >= 3 \/ nr >= 3 THEN { <<lb, rb>>, <<Rotate(lb), Reverse(rb)>> }
+    ELSE { <<lb, rb>>, <<Rotate(lb), rb>>, <<lb, Reverse(rb)>>, <<Rotate(lb), Reverse(rb)>> }
     : s \in 0..Min(2, Min(nl, nr)) } : nr \in 1..MaxCols } : nl \in 1..MaxCols }
 
 RowBound(lay) == IF Len(lay[1]) >= 3 \/ Len(lay[2]) >= 3 THEN MaxRows3 ELSE MaxRows
@@ -96,8 +97,13 @@ SelRowsOf(c) ==
   ELSE IF c.f.f = "m" THEN SelectMask(c.L, c.f.mask) ELSE SelectVector(c.L, c.f.ix)
 (* a selection that addresses no existing row must not return rows; selecting nothing     *)
 (* (all-false mask) is unconstrained except that whatever comes back must be right        *)
+(* A one-element mask (like a one-element index vector) is a 1x1 matrix, which the code base    *)
+(* treats as a scalar everywhere (DESIGN.md Appendix A, class v1/r1 of C03): acceptance free.  *)
 SelExpect(c) ==
-  IF ~SelOk(c) THEN "reject" ELSE IF SelRowsOf(c) = <<>> THEN "free" ELSE "exact"
+  IF ~SelOk(c) THEN "reject"
+  ELSE IF SelRowsOf(c) = <<>> THEN "free"
+  ELSE IF c.f.f = "m" /\ Len(c.f.mask) = 1 THEN "free"
+  ELSE "exact"
 
 CaseJson(c) ==
   IF IsJoin(c)
